@@ -547,6 +547,28 @@ def rule_o11(repo):
                 'system is answered satisfiable' % (n.lineno, '`, `'.join(src(t, 30) for t in tests)), 'prover/simplex.py:%d' % n.lineno)
     return res
 
+def rule_o12(repo):
+    """Branch and bound answers for the system it was given only if every sub-problem keeps *all* the constraints of its parent and adds
+    one.  The children are built with `add_ineqs(<new bound>, *<parent>.original)`: the list handed over is the parent's list as it is.
+    Filtered ("the new bound on v supersedes the old ones") the child also loses the bounds on v in the other direction, and a
+    witness is returned that violates a constraint that was given."""
+    res = RuleResult('C16.O12', 'every sub-problem of branch and bound keeps all constraints of its parent', floor=2)
+    f = repo.func('prover/simplex.py', 'branch_and_bound')
+    flow = flow_of(f.node) if 'flow_of' in globals() else None
+    from ..flow import flow_of as _flow_of
+    flow = _flow_of(f.node)
+    calls = [c for c in ast.walk(f.node) if isinstance(c, ast.Call) and call_attr(c) == 'add_ineqs' and any(isinstance(a, ast.Starred) for a in c.args)]
+    need(calls, 'branch_and_bound: the calls that build the sub-problems (add_ineqs(.., *..)) not found')
+    for i, c in enumerate(calls):
+        star = [a for a in c.args if isinstance(a, ast.Starred)][0]
+        v = flow.inline(star.value)
+        whole = (path_of(v) or '').endswith('.original')
+        res.add('prover/simplex.py :: branch_and_bound :: child#%d-inherits' % (i + 1), whole,
+                'the child is given `*%s`' % src(v, 40) if whole else
+                'line %d builds a sub-problem from `%s`, not from the parent\'s whole list of constraints: what is left out no longer binds the witness '
+                '(-3x + 3y <= -4, -3x + 2y >= 0 in the box [-5, 5]^2 is answered SAT with y = -6)' % (c.lineno, src(v, 70)), 'prover/simplex.py:%d' % c.lineno)
+    return res
+
 
 def rules(repo):
-    return [rule_o1(repo), rule_o2(repo), rule_o3(repo), rule_o4(repo), rule_o5(repo), rule_o6(repo), rule_o7(repo), rule_o8(repo), rule_o9(repo), rule_o10(repo), rule_o11(repo)]
+    return [rule_o1(repo), rule_o2(repo), rule_o3(repo), rule_o4(repo), rule_o5(repo), rule_o6(repo), rule_o7(repo), rule_o8(repo), rule_o9(repo), rule_o10(repo), rule_o11(repo), rule_o12(repo)]
